@@ -112,8 +112,15 @@ def run(rep):
         "every correction term.  Metric compatibility and commutation with index raising are "
         "consequences of these operator identities; convergence is not decided.")
     rep.assume("finite-difference derivatives are treated as exact derivative operators "
-               "(linear, commuting); their accuracy is C07")
+               "(linear, commuting); their accuracy along one axis is C07")
     check_keys(rep, KEYS)
     helper_cases(rep)
+    # ... of the right axis with that axis' spacing: d3x/d3y/d3z are the same scheme under
+    # axis exchange, each with its own 1/d and N, and the tensor derivatives put them in the
+    # slot of their axis (rules of C07, needed here for any grid with unequal spacings)
+    from . import c07
+    c07.check_axes(rep)
     rep.floor("reference-agreement", 40)
     rep.floor("index-discipline", 40)
+    rep.floor("axis-permutation", 3)
+    rep.floor("tensor-axis", 9)
